@@ -335,6 +335,9 @@ pub fn run(report: &Report, thorough: bool) -> Evidence {
                 o.smart = smart;
                 o.english = english;
                 o.ansi = ansi;
+                // every second configuration is reached through update_engine by a used context created with the options
+                // inverted (driver option via_update)
+                o.via_update = *ci % 2 == 1;
                 let mut c = Ctx::new(&o).expect("ctx");
                 c.with_pre = false;
                 c
@@ -408,13 +411,14 @@ pub fn run(report: &Report, thorough: bool) -> Evidence {
                 } else {
                     vec![(false, true, true, false), (true, false, false, true), (false, true, false, true), (true, false, true, false)]
                 };
-                for (kar, smart, english, ansi) in wcfgs {
+                for (wci, (kar, smart, english, ansi)) in wcfgs.into_iter().enumerate() {
                     let mut o = Opts::fixed(&probhat(), &real_db(), &xdg);
                     o.fsugg = true;
                     o.kar = kar;
                     o.smart = smart;
                     o.english = english;
                     o.ansi = ansi;
+                    o.via_update = wci % 2 == 1;
                     let mut c = Ctx::new(&o).expect("ctx");
                     c.with_pre = false;
                     v.push(c);
